@@ -194,6 +194,9 @@ class Fact:
         self.where_qname = ctx.qname
         self.root = (ctx.stack[0][:-6] if ctx.stack[0].endswith("@entry") else ctx.stack[0]) if ctx.stack else ctx.qname      # the function whose analysis reached this (through inlined helpers / its decorators)
         self.path = env.get("$path", ()) if env is not None else ()
+        # what `assert` statements on the way established: facts the code states about itself, kept apart from the branch conditions
+        # (an added assertion of an invariant does not make the statements after it conditional)
+        self.asserts = env.get("$asserts", ()) if env is not None else ()
         self.loops = env.get("$loops", ()) if env is not None else ()
         self.order = kw.pop("order", 0)
         self.__dict__.update(kw)
@@ -682,6 +685,17 @@ class Sym(Interp):
         env["$path"] = env.get("$path", ()) + ((t, polarity),)
         return env
 
+    def st_Assert(self, s, env, ctx):
+        tv = self.ev(s.test, env, ctx)
+        self.h_test(tv, s.test, "assert", env, ctx)
+        if s.msg is not None:
+            self.ev(s.msg, env, ctx)
+        t, pol = T(tv), True
+        while isinstance(t, tuple) and len(t) == 3 and t[0] == "unop" and t[1] == "not":
+            t, pol = t[2], not pol
+        env["$asserts"] = env.get("$asserts", ()) + ((t, pol),)
+        return env
+
     def h_return(self, v, n, env, ctx):
         self.fact("return", ctx, n, env, value=T(v))
         return v
@@ -769,7 +783,7 @@ class Sym(Interp):
         return T(v)
 
     def join_state(self, k, a, b):
-        if k == "$path":
+        if k in ("$path", "$asserts"):
             a, b = a or (), b or ()
             sb = set(b)
             return tuple(x for x in a if x in sb)
